@@ -5,7 +5,7 @@
 const char *prop_id() { return "C12"; }
 
 enum OpKind { OP_READ, OP_PCM_SEEK, OP_PAGE_SEEK, OP_RAW_SEEK, OP_TIME_SEEK, OP_LAP_SEEK, OP_HALFRATE, OP_READ_INT };
-struct Op { int kind; int64_t arg; double targ; };
+struct Op { int kind; int64_t arg; double targ; int lapv = 0; int64_t rawarg = 0; };   // lapv (gen 4): which of the five lapped seeks
 struct CallRes { long ret = 0; uint64_t hash = 0; int64_t tell = 0; long cb_first = 0, cb_last = 0; };   // callbacks [cb_first, cb_last) happened inside the call
 
 static uint64_t hash_pcm(float **pcm, int ch, long n) { uint64_t h = 1469598103934665603ull; for (int c = 0; c < ch; c++) h = fnv1a(pcm[c], (size_t)n * sizeof(float), h); return h; }
@@ -26,7 +26,7 @@ static long do_op(OggVorbis_File *vf, const Op &op, const Chain &c, uint64_t *ha
     case OP_PAGE_SEEK: return ov_pcm_seek_page(vf, op.arg);
     case OP_RAW_SEEK: return ov_raw_seek(vf, op.arg);
     case OP_TIME_SEEK: return ov_time_seek(vf, op.targ);
-    case OP_LAP_SEEK: return ov_pcm_seek_lap(vf, op.arg);
+    case OP_LAP_SEEK: return op.lapv == 0 ? ov_pcm_seek_lap(vf, op.arg) : op.lapv == 1 ? ov_pcm_seek_page_lap(vf, op.arg) : op.lapv == 2 ? ov_time_seek_lap(vf, op.targ) : op.lapv == 3 ? ov_time_seek_page_lap(vf, op.targ) : ov_raw_seek_lap(vf, op.rawarg);
     case OP_HALFRATE: return ov_halfrate(vf, (int)op.arg);
   }
   return 0;
@@ -97,12 +97,13 @@ bool prop_run(Tape &t, Report &r) {
     int64_t p = (int64_t)t.spread((uint32_t)std::min<int64_t>(sc.g.total + 1, 0x7fffffff));
     switch (op.kind) {
       case OP_READ: op.arg = 1 + t.below(3000); break; case OP_READ_INT: op.arg = 64 + t.below(4000); break;
-      case OP_PCM_SEEK: case OP_PAGE_SEEK: case OP_LAP_SEEK: op.arg = p; break;
+      case OP_PCM_SEEK: case OP_PAGE_SEEK: op.arg = p; break;
+      case OP_LAP_SEEK: op.arg = p; if (g_tape_gen >= 4) { op.lapv = (int)t.below(5); op.targ = dur * (double)t.below(1000) / 1000.0; op.rawarg = (int64_t)t.spread((uint32_t)sc.c.bytes.size() + 1); } break;
       case OP_RAW_SEEK: op.arg = (int64_t)t.spread((uint32_t)sc.c.bytes.size() + 1); break;
       case OP_TIME_SEEK: op.targ = dur * (double)t.below(1000) / 1000.0; break;
       case OP_HALFRATE: op.arg = 1; { bool has64 = false; for (auto &l : sc.c.links) if (l.bs0 <= 64) has64 = true; if (has64) op.kind = OP_READ, op.arg = 100; } break;
     }
-    sc.script.push_back(op); sd += sfmt("%s(%lld%s) ", opname(op.kind), (long long)op.arg, op.kind == OP_TIME_SEEK ? sfmt(" t=%.5f", op.targ).c_str() : "");
+    sc.script.push_back(op); sd += sfmt("%s(%lld%s) ", opname(op.kind), (long long)op.arg, op.kind == OP_TIME_SEEK ? sfmt(" t=%.5f", op.targ).c_str() : op.kind == OP_LAP_SEEK ? sfmt(" variant %d t=%.5f raw=%lld", op.lapv, op.targ, (long long)op.rawarg).c_str() : "");
   }
   for (int i = 0; i < 2; i++) sc.recov.push_back((int64_t)t.spread((uint32_t)std::min<int64_t>(sc.g.total + 1, 0x7fffffff)));
   std::string cd = sc.desc + "| script: " + sd;
